@@ -1,6 +1,6 @@
 (* C14 — Rebalances complete only when every member has rejoined.
    Only statements closed by [exact]; proofs live in proofs/CoordinatorProofs.v. *)
-From KS Require Import lib.Base model.Coordinator proofs.CoordinatorBase proofs.CoordinatorProofs proofs.CoordinatorTrace.
+From KS Require Import lib.Base model.Coordinator model.CoordinatorFaults proofs.CoordinatorBase proofs.CoordinatorProofs proofs.CoordinatorTrace proofs.CoordinatorFaults.
 Open Scope Z_scope.
 
 (* (1) a join reply reports success only when every current member has joined the
@@ -50,6 +50,45 @@ Theorem C14_sync_whole_generation : forall E h h2 n0 now g g' mid,
                   a = assignment_of g mid.
 Proof. intros E h h2 n0 now g g' mid. apply c14_sync_whole_generation. apply run_inv. Qed.
 Print Assumptions C14_sync_whole_generation.
+
+(* ---- the same clauses for ALL histories with ARBITRARY transient store failures ----
+   [runf E h]: every operation of h carries a [fault] saying which of its store calls
+   (load of the group, whole-group write, offset write) fail; model/CoordinatorFaults.v
+   says what the code then keeps in memory, leaves in the store and replies (with
+   fixes/C14-join-error-reply-no-members.patch). No hypothesis on the faults. *)
+
+(* (1f)-(3f) every join reply -- also one that reports a store failure -- names a leader
+   that is a current member, the joiner is a member, success implies that the write
+   succeeded and that every current member has joined the generation, and a member list
+   is only in a successful reply to the leader *)
+Theorem C14_join_reply_under_store_faults : forall E h mid fresh sess reb topics now f s' e gen ld id ms,
+  stepf E (runf E h) (Join mid fresh sess reb topics now) f = (s', Some (RJoin e gen ld id ms)) ->
+  exists g', s_mem s' = Some g' /\ wf E g' /\ gen = g_gen g' /\ ld = g_leader g' /\
+    (exists l, ld = Some l /\ In l (keys g')) /\ In id (keys g') /\
+    (e = NONE -> f_persist f = false /\ all_joined g' = true) /\
+    (ms <> [] -> e = NONE /\ ld = Some id).
+Proof. intros E h. intros. eapply c14f_join; [apply runf_inv2|eassumption]. Qed.
+Print Assumptions C14_join_reply_under_store_faults.
+
+(* (4f) after any history with any failures: if the group the request sees is Stable (or
+   CompletingRebalance and the request is the leader's) the sync of a current member in
+   the current generation succeeds -- the only hypothesis is that THIS sync's own write
+   succeeds; earlier failures do not matter *)
+Theorem C14_sync_under_store_faults : forall E h mid now f g,
+  loadf (runf E h) now f = LGroup g -> In mid (keys g) ->
+  g_phase g = PStable \/ (g_phase g = PCompleting /\ g_leader g = Some mid) ->
+  f_persist f = false ->
+  exists s' a g', stepf E (runf E h) (Sync mid (g_gen g) now) f = (s', Some (RSync NONE a)) /\
+                  s_mem s' = Some g' /\ g_phase g' = PStable /\ g_gen g' = g_gen g.
+Proof. intros E h. intros. eapply c14f_sync; [apply runf_inv2|eassumption..]. Qed.
+Print Assumptions C14_sync_under_store_faults.
+
+(* the invariant behind them: whatever fails, the group in memory is well formed (leader
+   is a member, CompletingRebalance/Stable only when all have joined, ...) *)
+Theorem C14_memory_wellformed_under_store_faults : forall E h g,
+  s_mem (runf E h) = Some g -> wf E g.
+Proof. intros E h g. apply (proj1 (runf_inv2 E h)). Qed.
+Print Assumptions C14_memory_wellformed_under_store_faults.
 
 (* non-vacuity: two members; the second join is answered REBALANCE_IN_PROGRESS until the
    first has rejoined; the leader (smallest id) gets the member list *)
